@@ -194,11 +194,20 @@ func (p proxyExt) GetTrack(stopTimeUpdate *gtfsrt.TripUpdate_StopTimeUpdate) *st
 	return p.inner.GetTrack(stopTimeUpdate)
 }
 
-// ForFeed keeps the proxy transparent for extensions with per-feed state.
-func (p proxyExt) ForFeed() extensions.Extension {
+// proxyPerFeedExt is the proxy for extensions that have per-feed state (a ForFeed method). Only
+// those get a ForFeed method on the proxy, so that wrapping never changes which code path
+// ParseRealtime takes for an extension.
+type proxyPerFeedExt struct{ proxyExt }
+
+func (p proxyPerFeedExt) ForFeed() extensions.Extension {
 	// (anonymous interface: the harness must also build against a library without that type)
-	if pf, ok := p.inner.(interface{ ForFeed() extensions.Extension }); ok {
-		return proxyExt{pf.ForFeed()}
+	return wrapExt(p.inner.(interface{ ForFeed() extensions.Extension }).ForFeed())
+}
+
+// wrapExt wraps an extension in the proxy that matches its method set.
+func wrapExt(e extensions.Extension) extensions.Extension {
+	if _, ok := e.(interface{ ForFeed() extensions.Extension }); ok {
+		return proxyPerFeedExt{proxyExt{e}}
 	}
-	return p
+	return proxyExt{e}
 }
